@@ -40,10 +40,11 @@ type wsBackend struct {
 	recv  []wsMsg
 	conns chan *websocket.Conn
 	hdrs  []http.Header
+	ended chan error // one entry per connection whose read loop ended (close frame, EOF, error)
 }
 
 func newWsBackend() *wsBackend {
-	b := &wsBackend{conns: make(chan *websocket.Conn, 64)}
+	b := &wsBackend{conns: make(chan *websocket.Conn, 64), ended: make(chan error, 64)}
 	up := websocket.Upgrader{}
 	b.srv = httptest.NewServer(http.HandlerFunc(func(w http.ResponseWriter, r *http.Request) {
 		c, err := up.Upgrade(w, r, nil)
@@ -57,6 +58,7 @@ func newWsBackend() *wsBackend {
 		for {
 			t, d, err := c.ReadMessage()
 			if err != nil {
+				b.ended <- err
 				return
 			}
 			b.mu.Lock()
